@@ -63,6 +63,31 @@ CHECKS = {
    text="densify/segmented: every ordered vertex pair of {-2,-1,0,1,2,5}^2 (all 8 directions, zero length) x scale {1,1e3,1e6} x offsets on/near/far from the axes x 6 resolutions, and 10 geometry kinds x 8 symmetries: no piece longer than the resolution, original vertices retained in order, added vertices on the original edges, type/structure/area/length unchanged. to_crs: 8 directed CRS pairs x placements inside both areas of use x kinds x target spellings x resolution modes: every vertex equals a FRESH pyproj transformer's result, type/ring/part structure and vertex order preserved, there-and-back within 1e-6 relative, same CRS (36 spelling pairs) returns the input, no CRS => ValueError; transformer_to_crs with scalar/list/array/NaN inputs and both axis orders.",
    note="Oracle transformers are built by the check from its own pyproj objects, never the library's cache. resolution <= 0 and empty geometries are outside the property's quantifier (observed, not judged).",
    design="4/C07", thorough=True),
+ "C04": dict(level="exploration", engine="E1",
+   technique="bounded-exhaustive enumeration of tilings, tile selections, block subsets and windows vs paint-the-rectangle / numpy mosaic reference",
+   text="Tiles for every base {1..9}^2 x tile {1..10}^2 and VariableSizedTiles for every composition of N<=6 per axis: painted partition (each pixel exactly once), shape/base/chunks arithmetic, every tile index in several spellings incl. negative, locate() for every pixel and one step outside as inverse of [idx], out-of-range indexes; crop for every non-empty block of tiles and clip_tiles for every pair compared with a freshly built tiling with re-based indices; GeoboxTiles over dyadic GeoBoxes: tile (r,c) == parent cropped to that region. BlockAssembler: layouts with <=2 (thorough 3) tiles per axis x EVERY subset of present blocks x every window and window spelling x axis positions (2-d, +band, time+, time+band) x dtype/fill combinations: result == numpy mosaic (fill where absent)[window], dtype able to hold blocks and fill, NaN-aware.",
+   note="BlockAssembler space is a union of complete products (geometry x subsets x windows; spellings x axis configs; dtype x fill), not one product. IndexError demanded only where documented. Zero-size chunks and GCP GeoBoxes not covered.",
+   design="4/C04", thorough=True),
+ "C08": dict(level="exploration", engine="E1",
+   technique="bounded-exhaustive enumeration of regions/resolutions/anchors/tolerances judged in exact rational arithmetic",
+   text="About 1 million cases (quick): from_bbox with resolution (low edge x span straddling every tolerance x signed pixel size per axis independently x 6 anchors x tight x 4 tol), with tuple shape, with int shape; 19 anchor spellings x bbox forms; from_geopolygon in own and other CRS (fresh pyproj region) incl. 'utm'; zoom_to(resolution=) on axis-aligned, rotated and sheared boxes. Oracle in fractions.Fraction of the binary64 inputs and of the resulting affine: pixel size and sign as requested; per side uncovered <= tol px and excess < (1+tol) px; pixel edges == anchor fraction (mod pixel) from the CRS origin unless floating/tight; tuple shape => that shape, pixel = span/shape, displacement < 1 px (0 when not snapping).",
+   note="R tolerance 1e-9*(|coordinate|+pixel) added to every comparison (at 1e7-pixel coordinates tol=1e-6 cannot be resolved; labelled). 'snapping off starts on the region edge' taken from the docstring for resolution requests.",
+   design="4/C08", thorough=True),
+ "C10": dict(level="exploration", engine="E1",
+   technique="bounded-exhaustive enumeration of same-CRS GeoBox pairs; paste eligibility predicted from construction parameters; pasted image compared with GDAL nearest warp",
+   text="About 4e5 cases (quick), 2.5e6 (thorough): scale classes (integer, near-integer on both sides of stol, fractional, anisotropic) x sub-pixel residues on both sides of ttol x mirroring x shifts covering every placement x 4 tolerance sets; rotations/shear/other-CRS never paste-able; where planning reports paste_ok and read_shrink == 1 the pasted image (planned source region, mirrored per construction, into a nodata destination) must equal rio_reproject(..., 'nearest') pixel for pixel for 8 dtypes incl. int8/bool; for read_shrink > 1 roi_src must be roi_dst scaled by the factor exactly.",
+   note="GDAL nearest warp is the independent oracle. Only the 'paste reported => eligible' direction is demanded, as the property states. padding=/align= arguments disable paste and are not covered.",
+   design="4/C10", thorough=True),
+ "C14": dict(level="exploration", engine="E1",
+   technique="bounded-exhaustive enumeration of grid specifications, indices and queries judged in exact rational arithmetic / exact separating-axis tests",
+   text="360 grid specs (tile shapes x resolution signs x origins x flip flags; dyadic and realistic) x indices [-3,3]^2 plus far indices: GeoBox shape/resolution/CRS, footprint vs the documented layout, pairwise disjoint interiors, 8 neighbours sharing their edge exactly, 13 point lookups per tile; from_sample_tile from every tile reproduces every footprint; bbox queries with edges on lattice lines and offsets 0, +-1e-9, +-1e-6, quarter tile; polygon queries (triangles, diamonds, L, frame with hole, multipolygon, both ring orientations) judged by an exact separating-axis test - clearly overlapping tiles must be returned, disjoint and (on the dyadic grid) exactly touching tiles must not; queries in other CRSs via a fresh pyproj transformer; web_tiles z=0..8 (12) vs the slippy-map formula.",
+   note="Overlap depth in (0, 5e-7) and contacts within 1e-9 on the realistic alphabet are left open. Which of several touching tiles owns an edge point is not demanded.",
+   design="4/C14", thorough=True),
+ "C15": dict(level="exploration", engine="E1",
+   technique="bounded-exhaustive configuration enumeration of the GDAL writer judged by rasterio read-back and tifffile tag inspection",
+   text="About 1.6e4 files (quick): 11 shapes (1x1, single row/column, cubes) x 11 band layouts x 4 transforms (dyadic/realistic north-up, rotated, sheared) x 3 CRSs x single/two-pass; 7 dtypes x nodata settings/sources x mem/file x compression; blocksize x overview levels x windowed x intermediate compression; externally supplied overviews through write_cog(overviews=) and write_cog_layers (compared pixel for pixel); pre-existing destination x overwrite flag (IOError and byte-identical file, or replaced); default overviews around 512 px. Read-back: pixels, dtype, band count/order, transform, CRS, nodata; tiled with tile sizes multiple of 16 (TIFF tags); one overview page per requested level of size ceil(size/factor).",
+   note="rasterio/GDAL and tifffile trusted. Overview requests only where min(shape) >= largest factor (GDAL refuses otherwise). Computed overview content not compared. Dask-backed input not covered.",
+   design="4/C15", thorough=True),
 }
 NOT_YET = "check not built yet in this session (design in DESIGN.md section 4); no claim made"
 
